@@ -160,7 +160,9 @@ CHECKS = {
        "machine never stops short; the driver reports rest= for every program) and C07_C03_left_alone_everything_completes "
        "(it always does come to rest: lexicographic termination measure, Buffer/Terminates.lean), from the 21-clause "
        "machine invariant K (Buffer/Invariant.lean, InvStep.lean: preserved by every zero-time step, timed event "
-       "and input); plus the step theorems C03_kept_on_failure, C03_delivered_on_success, addInputs_superset. Tied "
+       "and input); plus the step theorems C03_kept_on_failure, C03_delivered_on_success, addInputs_superset and their run-level "
+       "form C03_failed_call_is_offered_again (Buffer/Retry.lean: on the output stream, a call that follows a failed call "
+       "carries all of the failed call's arguments, for every program without shutdown). Tied "
        "to BufferAsyncCalls by a virtual-time differential over random timed programs; monitor: every submitted "
        "element reaches exactly one successful call, nothing unsubmitted is delivered, the call after a failed one "
        "is a superset",
